@@ -32,9 +32,9 @@ GenExpr(F, d, b, sig) ==
                                            IN  Mul(C(a[i][j], 2), D(D(F, i - 1), j - 1))]))
 RevExpr(F, d, sig, col) == SumExpr([j \in 1..d |-> Mul(C(sig[j][col], 1), D(F, j - 1))])
 
-IntMat(seed, r, c) == [i \in 1..r |-> [j \in 1..c |-> ((seed * 7 + i * 3 + j * 5 + i * j) % 5) - 2]]
+IntMat(seed, r, c) == [i \in 1..r |-> [j \in 1..c |-> (((seed + SaltValue) * 7 + i * 3 + j * 5 + i * j) % 5) - 2]]
 \* points with exact zero coordinates included
-Pt(seed, d) == [i \in 1..d |-> IF (seed + i) % 3 = 0 THEN 0 ELSE ((seed * 3 + i * 7) % 5) - 2]
+Pt(seed, d) == LET s == seed + SaltValue IN [i \in 1..d |-> IF (s + i) % 3 = 0 THEN 0 ELSE ((s * 3 + i * 7) % 5) - 2]
 
 GopBases(d) ==
     {<<<<Id(0), Mono(0, 2, <<1, 1>>)>>, <<Const(0), Id(d - 1), Mono(d - 1, 3, <<1, 1>>)>>>>,
